@@ -62,6 +62,10 @@ C02_UNDECIDED = {
     'stdnum.eu.vat': _DISPATCH, 'stdnum.vatin': _DISPATCH, 'stdnum.us.tin': _DISPATCH,
 }
 
+# modules whose *edges* cannot be decided either (the interpreter's result for them may start or end with anything); for the
+# other C02_UNDECIDED modules only the identity argument is out of reach, their first/last character classes are decided
+C02_EDGES_UNDECIDED = {'stdnum.de.handelsregisternummer', 'stdnum.eu.vat', 'stdnum.gs1_128', 'stdnum.vatin'}
+
 _NUMDB = 'hyphenation comes from a registry / range table lookup (numdb.split); the parts are not related to input positions by the interpreter'
 C04_UNDECIDED = {
     'stdnum.isbn': _NUMDB, 'stdnum.ismn': _NUMDB + ' (the property documents the 13-digit presentation)',
